@@ -598,7 +598,10 @@ def eval_at_byte(e, S, c):
     if k == "null":
         return 0
     if k == "ld":
-        if e[1] == S and e[2] == 1:
+        if isinstance(S, dict):
+            if e[2] == 1 and e[1] in S:
+                return c if S[e[1]] is None else S[e[1]]
+        elif e[1] == S and e[2] == 1:
             return c
         r, o, v = ptr_parts(e[1])
         if r[0] == "ld" and r[1][0] == "call" and r[1][1] == "__ctype_b_loc" and len(v) == 1 and v[0][1] == 2 and o % 2 == 0:
@@ -608,6 +611,13 @@ def eval_at_byte(e, S, c):
                 idx -= 1 << bits
             return ctype_mask(idx + o // 2)
         raise NoValue(e)
+    if k == "call" and isinstance(e[1], str) and EVAL_MODULE[0] is not None and EVAL_MODULE[0].has_fn(e[1]) and len(e[2]) == 1:
+        # a classifier / converter of this unit applied to the byte: evaluated on the concrete argument
+        v = eval_at_byte(e[2][0], S, c)
+        try:
+            return eval_fn(EVAL_MODULE[0].fn(e[1]), EVAL_MODULE[0], v)
+        except AnalysisError:
+            raise NoValue(e)
     if k == "call" and isinstance(e[1], str) and e[1] in CTYPE_FUNCS and len(e[2]) == 1:
         v = eval_at_byte(e[2][0], S, c) & 0xffffffff
         v = v - (1 << 32) if v >> 31 else v
@@ -628,6 +638,69 @@ def eval_at_byte(e, S, c):
     if k == "sel":
         return eval_at_byte(e[2] if eval_at_byte(e[1], S, c) else e[3], S, c)
     raise NoValue(e)
+
+
+EVAL_MODULE = [None]
+HEX_DIGITS = frozenset(b"0123456789abcdefABCDEF")
+
+
+def check_digit_class(chk, m):
+    """H3.digit-class: a pair is accepted exactly when both characters are hexadecimal digits.  On every segment that returns a
+    value (stores the cursor just past a pair), the decisions that look at the first / second character of the pair are
+    evaluated for all 255 non-NUL byte values ("C" locale, helpers of this unit evaluated on the concrete byte): the accepted
+    set must be the 22 hexadecimal digits for each position.  Decides the classification whatever decides it (isxdigit, a
+    table, a switch) and in every build variant (a table of plain char holding -1 accepts ':' where char is unsigned)."""
+    fn = m.fn("hex_get_byte")
+    EVAL_MODULE[0] = m
+    try:
+        segs = [(s, p) for s, p in paths.enumerate_segments(fn, m) if p.end == "ret" and p.ret is not None and strip_casts(p.ret)[0] != "c"]
+    except AnalysisError as e:
+        chk.unknown("H3.digit-class", "hex_get_byte", str(e), fn.loc)
+        return
+    n = 0
+    union = {0: set(), 1: set()}
+    show = lambda xs: ", ".join(repr(chr(x)) if x < 127 else "0x%02x" % x for x in xs[:8])
+    loc = fn.loc
+    for s, p in segs:
+        st = [e for e in p.events if e.kind == "store" and e.ptr == ("arg", 1)]
+        if not st:
+            continue
+        r, o, v = ptr_parts(st[-1].val)
+        if v:
+            continue
+        loc = p.ret_inst.loc
+        for k in (0, 1):
+            X = paths.mkptr(r, o - 2 + k)
+            sid = "hex_get_byte %s..ret [%s] character %d" % (s.lstrip("%"), "->".join(b.lstrip("%") for b in p.blocks[-3:]), k)
+            mine = [(cd, t) for cd, t, i in p.conds if (i is None or i.op != "switch") and
+                    any(x[0] == "ld" and x[1] == X and x[2] == 1 for x in paths.subexprs(cd))]
+            if not mine:
+                chk.ob("H3.digit-class", sid, False,
+                       "a pair is accepted without any test of its %s character" % ("first", "second")[k], p.ret_inst.loc, fn.name)
+                continue
+            try:
+                # the other character of the pair is held at a hexadecimal digit, so that a decision taken on both at once
+                # (`!isxdigit(s[0]) || !isxdigit(s[1])`) becomes a decision on this one
+                env = {X: None, paths.mkptr(r, o - 2 + (1 - k)): ord("7")}
+                D = set(c for c in range(1, 256) if all(bool(eval_at_byte(cd, env, c)) == bool(t) for cd, t in mine))
+            except NoValue as nv:
+                chk.unknown("H3.digit-class", sid,
+                            "the test of the character is not a function of that byte alone (%s)" % fmt(nv.args[0])[:50], p.ret_inst.loc)
+                return
+            n += 1
+            union[k] |= D
+            extra = sorted(D - HEX_DIGITS)
+            chk.ob("H3.digit-class", sid, not extra,
+                   "only hexadecimal digits are accepted as the %s character on this way through (255 byte values evaluated)" % ("first", "second")[k]
+                   if not extra else
+                   "accepted although not a hexadecimal digit: %s (%d characters) - the value returned for such a pair is outside 0..255 or "
+                   "junk is parsed as data" % (show(extra), len(extra)), p.ret_inst.loc, fn.name)
+    for k in (0, 1):
+        missing = sorted(HEX_DIGITS - union[k])
+        chk.ob("H3.digit-class", "hex_get_byte character %d, all accepting ways together" % k, not missing,
+               "every hexadecimal digit is accepted as the %s character on some way through" % ("first", "second")[k] if not missing else
+               "hexadecimal digits that are never accepted as the %s character: %s" % (("first", "second")[k], show(missing)), loc, fn.name)
+    chk.expect("H3", "character tests on accepting segments of hex_get_byte", n, 2)
 
 
 def check_whitespace_class(chk, m):
@@ -1121,6 +1194,7 @@ def run(chk):
     chk.note_unit(m)
     check_get_byte(chk, m)
     check_whitespace_class(chk, m)
+    check_digit_class(chk, m)
     check_digit_maps(chk, m)
     check_dump(chk, m)
     if chk.tier == "thorough":
@@ -1130,6 +1204,7 @@ def run(chk):
         chk.rule_prefix = "uchar."
         check_get_byte(chk, m2)
         check_whitespace_class(chk, m2)
+        check_digit_class(chk, m2)
         check_digit_maps(chk, m2)
         check_dump(chk, m2)
         chk.rule_prefix = ""
